@@ -140,6 +140,6 @@ Print Assumptions C07_pqmr_tolerant_reader_refuted.
    is the order of the code (rules C07.* of GenOrderCheck.co_rules). ---- *)
 From SigP Require GenOrderCheck GenOrderProofs.
 Theorem C07_code_writes_before_the_metadata_that_names_them : forall r : GenOrderCheck.rule,
-  In r GenOrderProofs.c07_rules -> GenOrderCheck.rule_holds r.
+  In r GenOrderCheck.c07_rules -> GenOrderCheck.rule_holds r.
 Proof. exact GenOrderProofs.co_C07_rules_hold. Qed.
 Print Assumptions C07_code_writes_before_the_metadata_that_names_them.
